@@ -423,6 +423,10 @@ def lr_catalogue():
                     rule("P", act(seq(label("l", ref("E")), lit("+"), label("r", ref("N"))), b_rec("plus"))),
                     rule("M", act(seq(label("l", ref("E")), lit("-"), label("r", ref("N"))), b_rec("minus"))),
                     rule("N", num())])
+    # left recursion together with the state store
+    g("state", [rule("S", act(seq(label("e", ref("E")), andcode(p_state("k", 0))), b_rec("s"))),
+                rule("E", choice(act(seq(label("l", ref("E")), lit("+"), state(s_inc("k")), label("r", ref("N"))), b_rec("add")), ref("N")), lr=True),
+                rule("N", num())])
     # suffix-only recursion (postfix operator)
     g("postfix", [rule("S", act(label("e", ref("E")), b_rec("s"))),
                   rule("E", choice(act(seq(label("l", ref("E")), lit("!")), b_rec("bang")), act(lit("0"), b_const("zero"))), lr=True)])
